@@ -480,6 +480,25 @@ pub fn directed() -> Vec<Request> {
             }
         }
     }
+    // every operator through the impl path, binary and assign forms
+    for op in &TRAITS[..10] {
+        let f = op.to_lowercase();
+        out.push(Request {
+            mode: Mode::Attr,
+            attr: format!("{op}, {op}Assign"),
+            item: format!("impl {op} for X {{ type Output = X; fn {f}(self, rhs: X) -> X {{ self }} }}"),
+        });
+        out.push(Request {
+            mode: Mode::Attr,
+            attr: format!("{op}Assign"),
+            item: format!("impl<T: Copy> ::core::ops::{op}<&T> for &X<T> {{ type Output = X<T>; fn {f}(self, rhs: &T) -> X<T> {{ todo!() }} }}"),
+        });
+        out.push(Request {
+            mode: Mode::Attr,
+            attr: format!("{op}"),
+            item: format!("impl {op}Assign<u8> for X {{ fn {f}_assign(&mut self, rhs: u8) {{}} }}"),
+        });
+    }
     // where-clause x common bound x per-trait bound x field-level bound
     {
         let wheres = ["", "where T: Copy", "where T: Copy,", "where", "where 'a: 'a, T: 'a", "where for<'x> &'x T: Copy, U: Clone,"];
